@@ -1190,8 +1190,15 @@ def _discard_user_class_state(models):
     keep attributes of the objects of the given (discarded) models.
     """
     for model in models:
-        if hasattr(model, "_tx_parser"):
-            model._tx_parser._discard_user_class_state()
+        the_parser = getattr(model, "_tx_parser", None)
+        if the_parser is None:
+            # The attributes of a user class instance that is not
+            # initialised yet are kept by its class.
+            collected = getattr(type(model), "_tx_obj_attrs", {}).get(id(model))
+            if collected:
+                the_parser = collected.get("_tx_parser")
+        if the_parser is not None:
+            the_parser._discard_user_class_state()
 
 
 class ReferenceResolver:
